@@ -125,6 +125,14 @@ def specXlat (mem : Mem) (m : Meth) (va : Nat) : Except XStatus FullAddr :=
   match m with
   | .nometh => .error .nometh
   | .linear t off => .ok ⟨(off + va) % W, t⟩
+  | .custom t mask hit miss =>
+    -- a custom method is its callback: where the callback completes the translation
+    -- itself the result is what it says (address space included), otherwise the
+    -- remaining level is the linear one and ends in the declared target space
+    match (if va &&& mask ≠ 0 then hit else miss) with
+    | .finish as off => .ok ⟨(va + off) % W, as⟩
+    | .step _ off => .ok ⟨(off + va) % W, t⟩
+    | .fail st => .error (if st = .ok then .nometh else st)
   | .lookup t endoff tbl =>
     match tbl.find? (fun (orig, _) => orig ≤ va ∧ va ≤ (orig + endoff) % W) with
     | some (orig, dest) => .ok ⟨(dest + (va - orig)) % W, t⟩
